@@ -10,7 +10,7 @@
      table_ok T          in every plain struct the JSON names are pairwise different ignoring case, and no pointer
                          points at something that itself prints as null
      hook_law sd         classification of a struct's (MarshalJSON, UnmarshalJSON) pair *)
-From Coq Require Import List String Bool ZArith NArith.
+From Coq Require Import List String Bool ZArith NArith Ascii.
 From MV Require Import Lib.GoJson Lib.GoJsonFacts Gen.CfgTypes Model.ConfigRT Proofs.ConfigRT.
 Import ListNotations.
 Open Scope string_scope.
@@ -75,3 +75,44 @@ Example c19_example :
              val_eqb v' w_dns = false /\
              encode cfg_structs 8 (TNamed "v2.DnsResolverConfig") v' = encode cfg_structs 8 (TNamed "v2.DnsResolverConfig") w_dns.
 Proof. exact witness_roundtrip. Qed.
+
+(* PATH (DIRECTORY) MODE FILE NAMING.  The order of the three operations on the item name - truncate to MaxFilePath
+   bytes, replace path separators, append ".json" - is read from ClusterManagerConfig.MarshalJSON and
+   RouterConfiguration.MarshalJSON (through helper functions) on every run: *)
+Theorem c19_file_name_shape :
+  src_fname_ops_cluster = canon_ops /\ src_fname_ops_router = canon_ops /\ src_max_file_path = 128%nat.
+Proof. exact src_file_name_shape. Qed.
+
+(* with that order, for EVERY name and limit the file name ends in ".json" (so the loader reads the file back) and
+   has at most max + 5 bytes *)
+Theorem c19_file_name_json : forall max n, exists p, file_name max canon_ops n = (p ++ ".json")%string.
+Proof. exact file_name_canon_json. Qed.
+Theorem c19_file_name_length : forall max n, (String.length (file_name max canon_ops n) <= max + 5)%nat.
+Proof. exact file_name_canon_length. Qed.
+Print Assumptions c19_file_name_json.
+
+(* two items of a container are kept in the same file (the second overwrites the first, which is then missing after a
+   reload) EXACTLY when their names agree on the first max bytes up to '/' against '_' ... *)
+Theorem c19_file_name_collide_iff : forall max a b,
+  file_name max canon_ops a = file_name max canon_ops b <-> replace_sep (firstn_str max a) = replace_sep (firstn_str max b).
+Proof. exact file_name_collide_iff. Qed.
+(* ... so the naming is injective on names of at most max bytes without a separator, *)
+Theorem c19_file_name_injective_short : forall max a b,
+  (String.length a <= max)%nat -> (String.length b <= max)%nat -> has_sep a = false -> has_sep b = false ->
+  file_name max canon_ops a = file_name max canon_ops b -> a = b.
+Proof. exact file_name_injective_short. Qed.
+Print Assumptions c19_file_name_injective_short.
+(* ... and NOT injective in general (listed finding reload-lost-item:*:file-name-collision, reproduced on the real code) *)
+Theorem c19_file_name_not_injective :
+  (exists a b, a <> b /\ file_name 128 canon_ops a = file_name 128 canon_ops b /\ String.length a = 130%nat) /\
+  (exists a b, a <> b /\ file_name 128 canon_ops a = file_name 128 canon_ops b /\ String.length a = 3%nat).
+Proof. exact file_name_not_injective. Qed.
+
+(* the other order (extension before truncation) drops the extension from 124 bytes on: 123 survives, 124 is skipped
+   by the loader *)
+Theorem c19_file_name_append_first_refuted :
+  loader_accepts (file_name 128 [FReplaceSep; FAppendJson; FTrunc] (repeat_char "a"%char 123)) = true /\
+  loader_accepts (file_name 128 [FReplaceSep; FAppendJson; FTrunc] (repeat_char "a"%char 124)) = false /\
+  loader_accepts (file_name 128 canon_ops (repeat_char "a"%char 124)) = true /\
+  loader_accepts (file_name 128 canon_ops (repeat_char "a"%char 200)) = true.
+Proof. exact file_name_append_first_refuted. Qed.
